@@ -1,6 +1,6 @@
 #!/venv/bin/python
 """Development helper (not a registered check): samples the C03 function-call generator against $VERIF_REPO outside the
-simulator and prints the distinct non-ElementPathError escapes by innermost frame.  usage: survey_c03.py [N] [seed] [fun|op]"""
+simulator and prints the distinct non-ElementPathError escapes by innermost frame.  usage: survey_c03.py [N] [seed] [fun|op|fmt|rx]"""
 import sys, os, random, collections, signal, traceback
 from concurrent.futures import ProcessPoolExecutor
 sys.path.insert(0, '/verif')
@@ -26,8 +26,8 @@ def work(args):
     signal.signal(signal.SIGALRM, h)
     for i in range(n):
         v = rng.choice(['1.0', '2.0', '3.0', '3.1', '3.1', '3.1'])
-        src = c03.funcall_source(rng, v) if mode == 'fun' else c03.format_source(rng) if mode == 'fmt' else c03.opcall_source(rng, v)
-        if mode == 'fmt':
+        src = c03.funcall_source(rng, v) if mode == 'fun' else c03.format_source(rng) if mode == 'fmt' else c03.regex_source(rng) if mode == 'rx' else c03.opcall_source(rng, v)
+        if mode in ('fmt', 'rx'):
             v = '3.1'
         p = P[v](namespaces={'p': 'http://example.com/ns'})
         signal.alarm(5)
